@@ -70,10 +70,20 @@ type pipeEnd struct {
 	once     sync.Once
 	// blockWrites makes Write block until the end is closed (a peer that never reads)
 	blockWrites bool
+	// writeGate, when non-nil, makes every Write wait for one token (or for Close): a peer whose
+	// reads can be released one at a time
+	writeGate chan struct{}
 }
 
 func (e *pipeEnd) Read(p []byte) (int, error) { return e.r.Read(p) }
 func (e *pipeEnd) Write(p []byte) (int, error) {
+	if g := e.writeGate; g != nil {
+		select {
+		case <-g:
+		case <-e.closedCh:
+			return 0, io.ErrClosedPipe
+		}
+	}
 	if e.blockWrites {
 		<-e.closedCh
 		return 0, io.ErrClosedPipe
